@@ -1,8 +1,123 @@
-/- line-protocol handlers for C15 (stub: not built yet) -/
+/- line-protocol handlers for C15 (SU(2)/SO(3) conversions, angular momentum, spin-j matrices).
+
+Floats cross the protocol as binary64 bit patterns (decimal integers); exact rationals as `p/q`. -/
 import Driver.Loop
+import NumqiModel.Lie
 
 namespace Numqi.Driver.C15
+open Numqi Numqi.Lie
 
-def handle (_args : List String) : String := "bad-op"
+def fOfBits? (s : String) : Option Float := s.toNat?.bind fun n =>
+  if n < 2^64 then some (Float.ofBits (UInt64.ofNat n)) else none
+def bitsOfF (x : Float) : String := toString x.toBits.toNat
+def fListStr (l : List Float) : String := ";".intercalate (l.map bitsOfF)
+def cxListStr (l : List (Cx Float)) : String := ";".intercalate (l.map fun z => s!"{bitsOfF z.re},{bitsOfF z.im}")
+
+def rat? (s : String) : Option Rat :=
+  match s.splitOn "/" with
+  | [p, q] => do
+      let p ← p.toInt?; let q ← q.toNat?
+      if q = 0 then none else some ((p : Rat) / (q : Rat))
+  | [p] => do let p ← p.toInt?; pure (p : Rat)
+  | _ => none
+def ratStr (r : Rat) : String := s!"{r.num}/{r.den}"
+
+def branchStr : Branch → String
+  | .zero => "zero" | .pi => "pi" | .generic => "generic"
+
+def half : Float := 0.5
+
+instance : Inhabited (Cx Float) := ⟨⟨0, 0⟩⟩
+
+def handle (args : List String) : String :=
+  match args with
+  | ["a2so3", a, b, g] => Id.run do
+      let some a := fOfBits? a | return "bad-op"
+      let some b := fOfBits? b | return "bad-op"
+      let some g := fOfBits? g | return "bad-op"
+      return fListStr (angleToSO3 a b g).toList
+  | ["a2su2", a, b, g] => Id.run do
+      let some a := fOfBits? a | return "bad-op"
+      let some b := fOfBits? b | return "bad-op"
+      let some g := fOfBits? g | return "bad-op"
+      return cxListStr (angleToSU2 half a b g).toList
+  | ["su2so3q", ar, ai, br, bi] => Id.run do
+      -- exact: U = [[a, b], [-conj b, conj a]] with rational a, b
+      let some ar := rat? ar | return "bad-op"
+      let some ai := rat? ai | return "bad-op"
+      let some br := rat? br | return "bad-op"
+      let some bi := rat? bi | return "bad-op"
+      let m := su2ToSO3cx ((1 : Rat) / 2) ⟨ar, ai⟩ ⟨br, bi⟩
+      let im0 := m.toList.all fun z => z.im == 0
+      return s!"{";".intercalate (m.toList.map fun z => ratStr z.re)} {if im0 then "real" else "complex"}"
+  | ["su2mulq", ar, ai, br, bi, cr, ci, dr, di] => Id.run do
+      let some ar := rat? ar | return "bad-op"
+      let some ai := rat? ai | return "bad-op"
+      let some br := rat? br | return "bad-op"
+      let some bi := rat? bi | return "bad-op"
+      let some cr := rat? cr | return "bad-op"
+      let some ci := rat? ci | return "bad-op"
+      let some dr := rat? dr | return "bad-op"
+      let some di := rat? di | return "bad-op"
+      let a : Cx Rat := ⟨ar, ai⟩; let b : Cx Rat := ⟨br, bi⟩
+      let c : Cx Rat := ⟨cr, ci⟩; let d : Cx Rat := ⟨dr, di⟩
+      let x := su2MulA a b c d; let y := su2MulB a b c d
+      return s!"{ratStr x.re} {ratStr x.im} {ratStr y.re} {ratStr y.im}"
+  | ["so3ang", x00, x01, x02, x10, x11, x12, x20, x21, x22, eps] => Id.run do
+      let some l := [x00, x01, x02, x10, x11, x12, x20, x21, x22, eps].mapM fOfBits? | return "bad-op"
+      match l with
+      | [x00, x01, x02, x10, x11, x12, x20, x21, x22, eps] =>
+        let r := mk3 x00 x01 x02 x10 x11 x12 x20 x21 x22
+        let (a, b, g) := so3ToAngle half r eps
+        return s!"{branchStr (branchOf (Trig.acos (clip1 x22)) eps)} {fListStr [a, b, g]}"
+      | _ => return "bad-op"
+  | ["so3su2", x00, x01, x02, x10, x11, x12, x20, x21, x22, eps] => Id.run do
+      let some l := [x00, x01, x02, x10, x11, x12, x20, x21, x22, eps].mapM fOfBits? | return "bad-op"
+      match l with
+      | [x00, x01, x02, x10, x11, x12, x20, x21, x22, eps] =>
+        let r := mk3 x00 x01 x02 x10 x11 x12 x20 x21 x22
+        return cxListStr (so3ToSU2 half r eps).toList
+      | _ => return "bad-op"
+  | ["su2ang", ar, ai, br, bi, eps] => Id.run do
+      let some l := [ar, ai, br, bi, eps].mapM fOfBits? | return "bad-op"
+      match l with
+      | [ar, ai, br, bi, eps] =>
+        let a : Cx Float := ⟨ar, ai⟩; let b : Cx Float := ⟨br, bi⟩
+        let x22 := ((su2Entries7 half a b).map Cx.re).getD 6 0
+        let (al, be, ga) := su2ToAngle half a b eps
+        return s!"{branchStr (branchOf (Trig.acos (clip1 x22)) eps)} {fListStr [al, be, ga]}"
+      | _ => return "bad-op"
+  | ["su2so3f", ar, ai, br, bi] => Id.run do
+      let some l := [ar, ai, br, bi].mapM fOfBits? | return "bad-op"
+      match l with
+      | [ar, ai, br, bi] => return fListStr (su2ToSO3 half (⟨ar, ai⟩ : Cx Float) ⟨br, bi⟩).toList
+      | _ => return "bad-op"
+  | ["jops", j2] => Id.run do
+      let some j2 := j2.toNat? | return "bad-op"
+      if j2 > 64 then return "bad-op"
+      let ofNat : Nat → Cx Float := fun n => ⟨n.toFloat, 0⟩
+      let sq : Nat → Cx Float := fun n => ⟨Float.sqrt n.toFloat, 0⟩
+      let h : Cx Float := ⟨0.5, 0⟩
+      let I : Cx Float := ⟨0, 1⟩
+      let idx := List.range (j2 + 1)
+      -- j2 = 0: the implementation returns the 1×1 zero matrix for all three (same formulas)
+      let jx := idx.flatMap fun i => idx.map fun k => jxEntry h sq j2 i k
+      let jy := idx.flatMap fun i => idx.map fun k => jyEntry I h sq j2 i k
+      let jz := idx.flatMap fun i => idx.map fun k => jzEntry h ofNat j2 i k
+      return s!"{cxListStr jx} {cxListStr jy} {cxListStr jz}"
+  | ["irrep", j2, a, b, g] => Id.run do
+      let some j2 := j2.toNat? | return "bad-op"
+      if j2 > 40 then return "bad-op"
+      let some a := fOfBits? a | return "bad-op"
+      let some b := fOfBits? b | return "bad-op"
+      let some g := fOfBits? g | return "bad-op"
+      let idx := List.range (j2 + 1)
+      return cxListStr (idx.flatMap fun i => idx.map fun k => su2Irrep j2 a b g i k)
+  | ["rot2", m, n] => Id.run do
+      let some m := m.toInt? | return "bad-op"
+      let some n := n.toInt? | return "bad-op"
+      if m = 0 || n = 0 || m.natAbs = n.natAbs then return "error:assert"
+      return ";".intercalate ((rationalOrthogonal2 m n).map ratStr)
+  | _ => "bad-op"
 
 end Numqi.Driver.C15
